@@ -419,6 +419,52 @@ func genFacts(w *bufio.Writer, repo string) error {
 		facts["syncUnderWriterLock"] = lk >= 0 && lk < sy && sy < nx && hasEv(evs, "defer:l.writerMu.Unlock") && !hasEv(evs, "call:l.writerMu.Unlock")
 	}
 
+	// GetByTime remembers that the head was empty when it looked at it (D21): a flag set in the ErrTimeIndexEmpty case
+	// and consulted in the ErrTimeAfterEnd case before the next segment is looked at again
+	{
+		fd := logGo.fn("log", "GetByTime")
+		if err := need(fd, "GetByTime"); err != nil {
+			return err
+		}
+		setIn, usedIn := "", ""
+		ast.Inspect(fd.Body, func(n ast.Node) bool {
+			cc, ok := n.(*ast.CaseClause)
+			if !ok || len(cc.List) != 1 {
+				return true
+			}
+			label := exprStr(cc.List[0])
+			for _, st := range cc.Body {
+				ast.Inspect(st, func(m ast.Node) bool {
+					switch x := m.(type) {
+					case *ast.AssignStmt:
+						if len(x.Lhs) == 1 && exprStr(x.Lhs[0]) == "headEmpty" && exprStr(x.Rhs[0]) == "true" {
+							setIn = label
+						}
+					case *ast.IfStmt:
+						mentions := false
+						ast.Inspect(x.Cond, func(c ast.Node) bool {
+							if id, ok := c.(*ast.Ident); ok && id.Name == "headEmpty" {
+								mentions = true
+							}
+							return true
+						})
+						if mentions {
+							// the branch must end the lookup (a return) before any look at the next reader
+							if len(x.Body.List) > 0 {
+								if _, isRet := x.Body.List[len(x.Body.List)-1].(*ast.ReturnStmt); isRet {
+									usedIn = label
+								}
+							}
+						}
+					}
+					return true
+				})
+			}
+			return true
+		})
+		facts["getByTimeRemembersEmptyHead"] = setIn == "index.ErrTimeIndexEmpty" && usedIn == "index.ErrTimeAfterEnd"
+	}
+
 	// segment swaps happen under the readers write lock
 	pub := events(logGo.fn("log", "Publish").Body)
 	facts["rolloverSwapUnderLock"] = firstIdx(pub, "call:l.readersMu.Lock") >= 0 &&
